@@ -131,6 +131,16 @@ def do_check(prop, args, seed):
             violations.append((path, bad, prop.sample(r['shape'], cinp)))
 
     inconclusive = [(r['shape'], m) for r in results for m in r['inconclusive']]
+    if hasattr(prop, 'vacuity_groups') and not args.limit:
+        # properties whose single shapes may legitimately be vacuous: every *group* of shapes must reach the assertion
+        groups = {}
+        for r in results:
+            g = prop.vacuity_groups(r['shape'])
+            if g is not None:
+                groups[g] = groups.get(g, 0) + r['reached']
+        for g, n_reached in sorted(groups.items()):
+            if n_reached == 0:
+                inconclusive.append(({'group': g}, "vacuous: no path of group %r reached the assertion" % (g,)))
     mismatches = [(r['shape'], m) for r in results for m in r['mismatches']]
 
     for fid, samples in sorted(known_hits.items()):
